@@ -59,7 +59,8 @@ pub enum Event {
     Finished { build: usize, term: Term },
     /// Order chosen for newly ready dependents (only when there was a choice).
     Order { menu: Vec<usize>, chosen: Vec<usize> },
-    Counts([usize; 6]),
+    /// State counts (want, ready, queued, running, done, failed) and n2's own total.
+    Counts([usize; 6], usize),
     TaskStarted { build: usize },
     TaskFinished { build: usize, term: Term, output: Vec<u8> },
     TaskOutput { build: usize, line: Vec<u8> },
@@ -344,9 +345,9 @@ impl Hooks for HarnessHooks {
             return;
         };
         match ev {
-            ProgressEvent::Update(c) => {
+            ProgressEvent::Update(c, total) => {
                 if e.record_counts {
-                    e.trace.push(Event::Counts(c))
+                    e.trace.push(Event::Counts(c, total))
                 }
             }
             ProgressEvent::TaskStarted { build } => e.trace.push(Event::TaskStarted { build }),
